@@ -40,7 +40,7 @@ META = {
         text="Theorems for ALL header strings, modes and LCM parameters: ReportStreamValue is total, never panics, never leaves the lock held, never "
              "touches another index; an open ends served-or-rejected and leaves the observer usable (induction over any sequence of opens); "
              "well-formed opens afterwards are served. The pre-fix code is refuted by a kernel-checked witness (shard id 238609294). Tied to the "
-             "real adminServiceProxyServer + ReplicationStreamObserver by boundary x key x mode differential runs with a wedge detector.",
+             "real adminServiceProxyServer + ReplicationStreamObserver by boundary x key x mode differential runs with a wedge detector. Concurrency clause (Props/C20C): every ReportStreamValue runs under the grow lock, so concurrent streams' reports are a sequence of atomic steps in some order - proved: from any unlocked state every sequence completes and ends unlocked; the counters PrintActiveStreams shows are independent of the order (any permutation), a function of each stream's own reports alone, and empty when every opened stream has closed, whatever rejected reports are mixed in (the slice length may depend on the order: kernel-checked example). The engine stresses the real observer with concurrent open/close against growth.",
         design_ref="DESIGN.md §5 C20",
         note=BASE_NOTE + "Modelled not verified: the handler body once entered (that is C06/C01-C04), log.CapturePanic, Go's mutex/slices.Grow semantics.",
         technique="Lean 4 invariant proof (lock state, totality) + model/implementation correspondence with wedge detection",
